@@ -495,16 +495,61 @@ fn subtree_snapshot(g: &Graph, key: &Key) -> Vec<GraphNode> {
     out
 }
 
+/// `doc|text`: the note is loaded, edited away, edited back and inserted under a new key; the
+/// walker runs after every step and on the patch graphs
+fn run_doc_shapes(text: &str) -> CaseResult {
+    let feats = crate::oracle::doc_features(text);
+    let init = lib_of(&[("1", text), ("2", "# two\n\n[one](1)\n")]);
+    let mut tr = 0u64;
+    let import_ok = guarded(|| Database::new(init.clone(), true, opts(""))).is_ok();
+    if !import_ok {
+        // a panic of the reader is C03's
+        return CaseResult { transitions: 1, outcome: "panic-skip:import".into(), ..Default::default() };
+    }
+    let r = guarded(|| -> Result<usize, String> {
+        let mut db = Database::new(init.clone(), true, opts(""));
+        invariants(db.graph()).map_err(|e| format!("after import: {}", e))?;
+        let steps: [(&str, &str); 4] = [("1", "# away\n\ntext\n"), ("1", text), ("3", text), ("2", "# two again\n")];
+        for (k, t) in steps {
+            db.update_document(k.into(), t.to_string());
+            tr += 1;
+            invariants(db.graph()).map_err(|e| format!("after update of {} to {:?}: {}", k, trunc(t, 60), e))?;
+        }
+        let g = db.graph();
+        let mut n = 0;
+        for key in g.keys() {
+            let mut patch = g.new_patch();
+            patch.build_key_from_iter(&key, g.collect(&key).iter());
+            tr += 1;
+            n = invariants(&patch).map_err(|e| format!("patch graph of collect({}): {}", key, e))?;
+        }
+        Ok(n)
+    });
+    let mut failures = vec![];
+    let outcome = match r {
+        Err(p) => {
+            failures.push(panic_failure(p, &feats, "doc shapes"));
+            "panic".to_string()
+        }
+        Ok(Err(e)) => {
+            failures.push(Failure { clause: "invariant".into(), site: "doc-shape".into(), features: feats, detail: format!("note {:?}: {}", trunc(text, 200), e) });
+            "malformed".to_string()
+        }
+        Ok(Ok(_)) => "well-formed".to_string(),
+    };
+    CaseResult { transitions: tr, nontrivial: true, outcome, failures, ..Default::default() }
+}
+
 impl Engine for C20 {
     fn id(&self) -> &'static str {
         "C20"
     }
     fn rule(&self) -> String {
-        "the same histories as C04 on the real Database; after the last step an independent walker (R7) checks the arena: keys map to distinct live Document nodes, child/next walks from the roots are pairwise disjoint and cover exactly the live nodes, every prev pointer is the walk predecessor, no pointer into a tombstone, id == index, to_document/node_key/to_parent agree with the walk, pre-order == document order, and the last update left every other note's nodes bit-identical; the same walker runs on the patch graphs built from collect() and squash(depth 2) of every note (formatting / refactoring previews). non-trivial = history changes the text-state".into()
+        "the same histories as C04 on the real Database; after the last step an independent walker (R7) checks the arena: keys map to distinct live Document nodes, child/next walks from the roots are pairwise disjoint and cover exactly the live nodes, every prev pointer is the walk predecessor, no pointer into a tombstone, id == index, to_document/node_key/to_parent agree with the walk, pre-order == document order, and the last update left every other note's nodes bit-identical; the same walker runs on the patch graphs built from collect() and squash(depth 2) of every note (formatting / refactoring previews). Document family (`doc|text`): every block forest of the bound and every wide container (8 container kinds with 1..=5 blocks inside and 0..=2 behind) as a note of a two-note library: loaded, edited away, edited back, inserted under a new key, the other note edited; the walker runs after every step and on the patch graphs. non-trivial = history changes the text-state".into()
     }
     fn bound(&self, tier: Tier) -> String {
         let d = depths(tier);
-        format!("depth <= {} from library 0, <= {} from libraries 1,2", d.0, d.1)
+        format!("depth <= {} from library 0, <= {} from libraries 1,2; document family: wide containers + block forests <= {} nodes", d.0, d.1, if tier == Tier::Thorough { 4 } else { 3 })
     }
     fn assumptions(&self) -> Vec<String> {
         vec!["the walker reads the graph only through Graph::{nodes, graph_node, keys, get_document_id, node, node_line_range}".into()]
@@ -512,12 +557,26 @@ impl Engine for C20 {
     fn enumerate(&self, tier: Tier, emit: &mut dyn FnMut(&str)) {
         let d = depths(tier);
         enumerate_histories(d.0, d.1, emit);
+        // every shape the builder can be asked to build, as a note of a two-note library (`doc|text`)
+        let mut doc = |t: &str| emit(&format!("doc|{}", t));
+        crate::space::wide_container_docs(&mut doc);
+        if tier == Tier::Thorough {
+            crate::space::block_docs(4, 3, 4, true, &mut doc);
+        } else {
+            crate::space::block_docs(3, 2, 3, true, &mut doc);
+        }
     }
     fn features(&self, case: &str) -> Vec<String> {
+        if let Some(text) = case.strip_prefix("doc|") {
+            return crate::oracle::doc_features(text);
+        }
         let (lib, ops) = parse_history(case);
         history_features(&ops, &init_lib(lib))
     }
     fn run(&self, case: &str, _ctx: &Ctx) -> CaseResult {
+        if let Some(text) = case.strip_prefix("doc|") {
+            return run_doc_shapes(text);
+        }
         let (lib, ops) = parse_history(case);
         let init = init_lib(lib);
         let feats = history_features(&ops, &init);
